@@ -214,7 +214,7 @@ def delimited_rows(delimited_source, data_format):
         try:
             for row in delimited_reader:
                 yield row
-        except (csv.Error, UnicodeDecodeError) as error:
+        except (csv.Error, UnicodeError) as error:
             _raise_delimited_data_format_error(delimited_source, delimited_reader, error)
     finally:
         if has_opened_delimited_stream:
@@ -466,7 +466,7 @@ def fixed_rows(fixed_source, encoding, field_name_and_lengths, line_delimiter="a
             if len(row) > 0:
                 yield row
                 location.advance_line()
-    except UnicodeDecodeError as error:
+    except UnicodeError as error:
         raise errors.DataFormatError("cannot decode fixed data using encoding %r: %s" % (encoding, error), location)
     finally:
         if is_opened:
